@@ -114,13 +114,72 @@ fn set_env_phase(phase: u64) {
     }
 }
 
+/// Child-process entry `fqv __c16print <case.json>`: builds the case and calls `QRCode::print()` - the other entry
+/// point of the text rendering - so that the parent can read what really reaches standard output.
+pub fn print_main(args: &[String]) -> ! {
+    let text = std::fs::read_to_string(&args[0]).unwrap_or_default();
+    let v: Value = serde_json::from_str(&text).unwrap_or(Value::Null);
+    let Some(bc) = BuildCase::from_json(&v) else { std::process::exit(3) };
+    match bc.builder().build() {
+        Ok(q) => {
+            q.print();
+            std::process::exit(0)
+        }
+        Err(_) => std::process::exit(4),
+    }
+}
+
+static PRINT_SEQ: std::sync::atomic::AtomicU64 = std::sync::atomic::AtomicU64::new(0);
+
+/// `print()` in a child process: standard output must be the text rendering of the same matrix followed by one line
+/// feed (println), under whichever of the locale / terminal environments the case selects.
+pub fn check_print(bc: &BuildCase, obs: &mut Obs) -> Result<(), Fail> {
+    if std::env::var("FQV_IN_FUZZ").is_ok() {
+        return Ok(());
+    }
+    let built = match do_build(bc)? {
+        Ok(b) => b,
+        Err(_) => return Ok(()),
+    };
+    let Ok(exe) = std::env::current_exe() else { return Ok(()) };
+    let k = PRINT_SEQ.fetch_add(1, std::sync::atomic::Ordering::SeqCst);
+    let path = std::env::temp_dir().join(format!("fqv-print-{}-{}.json", std::process::id(), k));
+    if std::fs::write(&path, bc.to_json().to_string()).is_err() {
+        return Ok(());
+    }
+    let phase = bc.hash() % 4;
+    let mut cmd = std::process::Command::new(exe);
+    cmd.arg("__c16print").arg(&path);
+    for (key, val) in env_phase(phase) {
+        match val {
+            Some(v) => cmd.env(key, v),
+            None => cmd.env_remove(key),
+        };
+    }
+    let out = cmd.output();
+    let _ = std::fs::remove_file(&path);
+    let Ok(out) = out else { return Ok(()) };
+    if out.status.code() != Some(0) {
+        return fail("print_failed", format!("child process calling print() ended with {:?}: {} ({:?})", out.status.code(), String::from_utf8_lossy(&out.stderr).chars().take(300).collect::<String>(), bc));
+    }
+    let text = String::from_utf8(out.stdout).map_err(|_| Fail { sig: "print_not_utf8".into(), msg: format!("print() wrote bytes that are not UTF-8 ({:?})", bc) })?;
+    let Some(body) = text.strip_suffix('\n') else {
+        return fail("print_no_newline", format!("print() output does not end with a line feed ({:?})", bc));
+    };
+    check_text(body, &built.values(), built.size(), bc).map_err(|f| Fail { sig: format!("print:{}", f.sig), msg: format!("print() (environment phase {}): {}", phase, f.msg) })?;
+    obs.label(&format!("print_environment_phase_{}", phase));
+    obs.count("child_processes", 1);
+    obs.nontrivial(bc.hash() ^ 0x5052);
+    Ok(())
+}
+
 pub fn replay(_e: &Engine, case: &Value, obs: &mut Obs) -> Result<(), Fail> {
     let b = BuildCase::from_json(case).ok_or_else(|| Fail { sig: "bad_replay".into(), msg: "cannot parse case".into() })?;
     let phase = case.get("env_phase").and_then(|x| x.as_u64()).unwrap_or(0);
     if phase != 0 {
         set_env_phase(phase);
     }
-    let r = check(&b, obs);
+    let r = if case.get("print").is_some() { check_print(&b, obs) } else { check(&b, obs) };
     if phase != 0 {
         set_env_phase(0);
     }
@@ -186,6 +245,19 @@ pub fn run(e: &'static Engine) {
             jc.run_prop(3 << 20, &strat, total / shards / 4, |(c, _, _)| c.to_json(), |(c, _, _), o| {
                 o.label("part:generated");
                 check(c, o)
+            });
+        }));
+    }
+    e.par(jobs);
+    // the other entry point of the text rendering: QRCode::print(), in a child process whose standard output is read
+    let total: u32 = e.tier.pick(96, 1920);
+    let mut jobs: Vec<Job> = Vec::new();
+    for _ in 0..16 {
+        jobs.push(Box::new(move |jc: &mut JobCtx| {
+            let strat = prop_oneof![3 => crate::gens::any_case().prop_map(|(c, _, _)| c), 1 => crate::gens::steered_case(1, 40, true).prop_map(|(c, _)| c)];
+            jc.run_prop(21 << 20, &strat, total / 16, |c| { let mut j = c.to_json(); j["print"] = json!(true); j }, |c, o| {
+                o.label("part:print_entry_point");
+                check_print(c, o)
             });
         }));
     }
